@@ -255,6 +255,9 @@ var profiles = map[string]profile{
 	// C19: everything at once, replayed: malformed and mutated memos (error text), several fee recipients (event order), messages, queries
 	"C19": {name: "C19", minOps: 4, maxOps: 14, wRecv: 72, wMsg: 14, wDeposit: 4, wQuery: 10, pOrbiter: 92, pFee: 65, pBadPayload: 22,
 		pFault: 0, pLie: 0, pWrongSign: 10, pPass: 10, pHuge: 4, pBadDenom: 6, routes: cleanRoutes, msgKinds: allMsgKinds, mask: []int{0, 4}, pPlanned: 50, pInitLimit: 30},
+	// C16 (end-to-end part): orbiter packets carrying every kind of token (native, vouchers of this and other channels, multi-hop, ibc/ hashes, illegal)
+	"C16": {name: "C16", minOps: 1, maxOps: 4, wRecv: 95, wMsg: 0, wDeposit: 5, wQuery: 0, pOrbiter: 96, pFee: 30, pBadPayload: 4,
+		pFault: 0, pLie: 0, pWrongSign: 0, pPass: 0, pHuge: 4, pBadDenom: 55, routes: cleanRoutes, msgKinds: []string{"UpdateParams"}, mask: []int{0, 1, 2, 4}},
 	// C18: passthrough lengths around the limit in force, histories of parameter updates
 	"C18": {name: "C18", minOps: 3, maxOps: 10, wRecv: 55, wMsg: 35, wDeposit: 0, wQuery: 10, pOrbiter: 97, pFee: 20, pBadPayload: 2,
 		pFault: 0, pLie: 0, pWrongSign: 20, pPass: 85, pHuge: 0, pBadDenom: 0, routes: cleanRoutes, msgKinds: []string{"UpdateParams"}, mask: []int{0, 1, 4}, pPlanned: 50},
@@ -573,6 +576,12 @@ func (g *gen) genPacket() (world.Packet, pktInfo) {
 			m := `{"orbiter":{"forwarding":{"protocol_id":"PROTOCOL_INTERNAL","attributes":{"@type":"/noble.orbiter.controller.forwarding.v1.InternalAttributes","recipient":"` + g.a.users[0].Bech + `"}}}}`
 			ics.Memo = m
 		}
+		if r.Chance(8) {
+			// memos around and beyond the size ibc-go allows a SENDER to put in (the receive path has no such limit)
+			n := rng.Pick(r, []int{32767, 32768, 32769, 40000, 70000})
+			ics.Memo = rng.Pick(r, []string{strings.Repeat("a", n), `{"note":"` + strings.Repeat("b", n) + `"}`})
+			info.shape = "foreign/long-memo"
+		}
 		if r.Chance(10) {
 			p.Raw = rng.Pick(r, [][]byte{[]byte("garbage"), {}, []byte(`{"denom":"x"`), []byte(`{"amount":5}`)})
 			p.ICS = nil
@@ -703,7 +712,10 @@ func (g *gen) genMsg() world.Msg {
 	}
 	m := world.Msg{Kind: rng.Pick(r, g.p.msgKinds), Signer: sim.Authority}
 	if r.Chance(g.p.pWrongSign) {
-		m.Signer = rng.Pick(r, []string{g.a.users[0].Bech, sim.OrbiterAddr().String(), "", "noble1invalid", strings.ToUpper(sim.Authority), world.ModAddr("gov").String()})
+		m.Signer = rng.Pick(r, []string{g.a.users[0].Bech, sim.OrbiterAddr().String(), "", "noble1invalid", strings.ToUpper(sim.Authority), world.ModAddr("gov").String(),
+			// near misses of the authority's address: mixed case (malformed bech32), surrounding space, another prefix spelling
+			strings.ToUpper(sim.Authority[:1]) + sim.Authority[1:], sim.Authority[:8] + strings.ToUpper(sim.Authority[8:]), " " + sim.Authority, sim.Authority + " ",
+			sim.Authority[:len(sim.Authority)-1]})
 	}
 	switch m.Kind {
 	case "PauseProtocol", "UnpauseProtocol":
@@ -924,6 +936,10 @@ func (wr *worldRunner) memoTerm(spec *paySpec, ics *world.ICS20) (term string, p
 				pl = norm
 			}
 		}
+	}
+	if len(ics.Memo) > 8000 {
+		// not rendered for the model (only packets that are not the orbiter's carry such memos: the model must not look at them)
+		return `(Err "memo not rendered")`, pl, note
 	}
 	tree, err := scanJSON(ics.Memo)
 	if err != nil {
